@@ -34,10 +34,11 @@ type pool struct {
 	gaveUp   int32
 	mu       sync.Mutex
 	infra    []string
+	sem      chan struct{} // bounds the number of executor children alive
 }
 
 func newPool(dir string) *pool {
-	return &pool{dir: dir, idle: 30 * time.Second, maxHangs: 3}
+	return &pool{dir: dir, idle: 30 * time.Second, maxHangs: 3, sem: make(chan struct{}, vlib.Workers())}
 }
 
 // plan says how cells are packed into children. Builder compiles are kept
@@ -113,7 +114,9 @@ func (p *pool) runShare(jobs []execJob, todo []cell, out [][]cellOutcome, ncpu i
 			back[len(back)-1] = append(back[len(back)-1], c)
 		}
 		atomic.AddInt64(&p.children, 1)
+		p.sem <- struct{}{}
 		oc, err := runChild(p.dir, req, ncpu, gcOff, false, p.idle)
+		<-p.sem
 		if err != nil {
 			p.fail(err.Error())
 			return
@@ -150,7 +153,9 @@ func (p *pool) runShare(jobs []execJob, todo []cell, out [][]cellOutcome, ncpu i
 // hash comparison has already established).
 func (p *pool) describe(text []byte, s setting, ncpu int) string {
 	atomic.AddInt64(&p.children, 1)
+	p.sem <- struct{}{}
 	oc, err := runChild(p.dir, []execJob{{ID: 0, Text: text, Settings: []setting{s}}}, ncpu, s.Bld, true, p.idle)
+	<-p.sem
 	if err != nil || len(oc.Results) != 1 {
 		return fmt.Sprintf("(second run for the description failed: %v)", err)
 	}
